@@ -6,32 +6,32 @@ import Bisquitt.Lemmas.GwEmits
 namespace Bisquitt.Gw
 open Bisquitt Gw
 
-variable {Sn : Pkt → Prop} {Mq : MqPkt → Prop}
+variable {Sn : Pkt → Prop} {Mq : MqPkt → Prop} {E : MqPkt → Prop}
 
 theorem kindOk_of_getTx {g : Gw} {id : Nat} {t : Tx} (h : g.getTx id = some t) (w : WF Sn Mq g) :
     KindOk Sn Mq t.kind := w.2 t (getTx_mem h)
 
-theorem Step.ite {g a b : Gw} {c : Prop} [Decidable c] (ha : c → Step Sn Mq g a) (hb : ¬c → Step Sn Mq g b) :
-    Step Sn Mq g (if c then a else b) := by
+theorem Step.ite {g a b : Gw} {c : Prop} [Decidable c] (ha : c → Step Sn Mq E g a) (hb : ¬c → Step Sn Mq E g b) :
+    Step Sn Mq E g (if c then a else b) := by
   split
   · exact ha ‹_›
   · exact hb ‹_›
 
 theorem Step.armBp (g : Gw) (t : Tx) (ht : t ∈ g.txs) (q : UInt8) (st : BpSt) (data : BpData) (snp : Option Pkt)
-    (hd : WF Sn Mq g → KindOk Sn Mq (.brokerPub q st data snp 0)) : Step Sn Mq g (g.armBp t q st data snp) := by
+    (hd : WF Sn Mq g → KindOk Sn Mq (.brokerPub q st data snp 0)) : Step Sn Mq E g (g.armBp t q st data snp) := by
   unfold Gw.armBp
   split
   · exact Step.refl g
   · exact Step.setTx g _ hd
 
-theorem Step.finishIfDone (g : Gw) (id : Nat) (st : BpSt) : Step Sn Mq g (g.finishIfDone id st) := by
+theorem Step.finishIfDone (g : Gw) (id : Nat) (st : BpSt) : Step Sn Mq E g (g.finishIfDone id st) := by
   unfold Gw.finishIfDone
   split
   · exact Step.finishTx g id
   · exact Step.refl g
 
 theorem Step.proceedSN (g : Gw) (id : Nat) (st : BpSt) (p : Pkt) (hp : Sn p) :
-    Step Sn Mq g (g.proceedSN id st p) := by
+    Step Sn Mq E g (g.proceedSN id st p) := by
   unfold Gw.proceedSN
   split
   · rename_i t ht
@@ -47,7 +47,7 @@ theorem Step.proceedSN (g : Gw) (id : Nat) (st : BpSt) (p : Pkt) (hp : Sn p) :
   · exact Step.refl g
 
 theorem Step.proceedMQ (g : Gw) (id : Nat) (st : BpSt) (p : MqPkt) (hp : Mq p) :
-    Step Sn Mq g (g.proceedMQ id st p) := by
+    Step Sn Mq E g (g.proceedMQ id st p) := by
   unfold Gw.proceedMQ
   split
   · rename_i t ht
@@ -64,7 +64,7 @@ theorem Step.proceedMQ (g : Gw) (id : Nat) (st : BpSt) (p : MqPkt) (hp : Mq p) :
 
 /-- the retry callback: needs the parked packet to be permitted, which `WF` provides -/
 theorem Step.retryExpire (S : Sites Sn Mq) (g : Gw) (t : Tx) (ht : t ∈ g.txs) :
-    Step Sn Mq g (g.retryExpire t) := by
+    Step Sn Mq E g (g.retryExpire t) := by
   intro w
   have hko := w.2 t ht
   revert w
@@ -81,7 +81,7 @@ theorem Step.retryExpire (S : Sites Sn Mq) (g : Gw) (t : Tx) (ht : t ∈ g.txs) 
           have hp : Sn p := hko.1 p rfl
           have hp' : Sn (setDup p) := S.dup p hp
           -- the queued references are updated in place
-          have h1 : Step Sn Mq g { g with buffer := g.buffer.map (fun (b : BufItem) =>
+          have h1 : Step Sn Mq E g { g with buffer := g.buffer.map (fun (b : BufItem) =>
               if b.tx == some t.id && b.pkt == p then { b with pkt := setDup p } else b) } := by
             intro w
             refine ⟨Emits.of_outs_eq rfl, ⟨?_, w.2⟩⟩
@@ -100,7 +100,7 @@ theorem Step.retryExpire (S : Sites Sn Mq) (g : Gw) (t : Tx) (ht : t ∈ g.txs) 
         · exact Step.finishTx g t.id
   · exact Step.refl g
 
-theorem Step.txExpire (S : Sites Sn Mq) (g : Gw) (t : Tx) (ht : t ∈ g.txs) : Step Sn Mq g (g.txExpire t) := by
+theorem Step.txExpire (S : Sites Sn Mq) (g : Gw) (t : Tx) (ht : t ∈ g.txs) : Step Sn Mq E g (g.txExpire t) := by
   unfold Gw.txExpire
   split
   · split
@@ -119,10 +119,10 @@ end Bisquitt.Gw
 namespace Bisquitt.Gw
 open Bisquitt Gw
 
-variable {Sn : Pkt → Prop} {Mq : MqPkt → Prop}
+variable {Sn : Pkt → Prop} {Mq : MqPkt → Prop} {E : MqPkt → Prop}
 
-theorem Step.both {g a b : Gw} {c : Prop} [Decidable c] (ha : Step Sn Mq g a) (hb : Step Sn Mq g b) :
-    Step Sn Mq g (if c then a else b) := by
+theorem Step.both {g a b : Gw} {c : Prop} [Decidable c] (ha : Step Sn Mq E g a) (hb : Step Sn Mq E g b) :
+    Step Sn Mq E g (if c then a else b) := by
   split <;> assumption
 
 /-! ### the connect exchange -/
@@ -141,13 +141,13 @@ theorem connTx_spec {g : Gw} {t : Tx} {st : ConnSt} {f : ConnFields} (h : g.conn
     · simp at h
   · simp at h
 
-theorem Step.sendConnack (S : Sites Sn Mq) (g : Gw) (rc : UInt8) : Step Sn Mq g (g.sendConnack rc) :=
+theorem Step.sendConnack (S : Sites Sn Mq) (g : Gw) (rc : UInt8) : Step Sn Mq E g (g.sendConnack rc) :=
   Step.snSend g _ none (S.connack rc)
 
 theorem kindOk_connect {st : ConnSt} {f : ConnFields} (h : ConnInv st f) : KindOk Sn Mq (.connect st f) := h
 
 theorem Step.connAuthenticated (S : Sites Sn Mq) (g : Gw) (t : Tx) (f : ConnFields)
-    (hf : f.wt = [] ∧ f.wq = 0) : Step Sn Mq g (g.connAuthenticated t f) := by
+    (hf : f.wt = [] ∧ f.wq = 0) : Step Sn Mq E g (g.connAuthenticated t f) := by
   unfold Gw.connAuthenticated
   split
   · rename_i hw
@@ -160,14 +160,14 @@ theorem Step.connAuthenticated (S : Sites Sn Mq) (g : Gw) (t : Tx) (f : ConnFiel
     refine Step.trans ?_ (Step.mqttSend _ _ (S.mqConnect f hok))
     exact Step.setTx g _ (fun _ => kindOk_connect (st := .awaitingConnack) hok)
 
-theorem Step.cancelOldConnect (g : Gw) : Step Sn Mq g g.cancelOldConnect := by
+theorem Step.cancelOldConnect (g : Gw) : Step Sn Mq E g g.cancelOldConnect := by
   unfold Gw.cancelOldConnect
   split
   · exact Step.finishTx g _
   · exact Step.refl g
 
 theorem Step.startConnectTx (S : Sites Sn Mq) (g : Gw) (id : Nat) (f : ConnFields) (hf : f.wt = [] ∧ f.wq = 0) :
-    Step Sn Mq g (g.startConnectTx id f) := by
+    Step Sn Mq E g (g.startConnectTx id f) := by
   unfold Gw.startConnectTx
   split
   · exact Step.refl g
@@ -176,14 +176,14 @@ theorem Step.startConnectTx (S : Sites Sn Mq) (g : Gw) (id : Nat) (f : ConnField
     · exact Step.refl g
 
 theorem Step.startConnect (S : Sites Sn Mq) (g : Gw) (f : ConnFields) (hf : f.wt = [] ∧ f.wq = 0) :
-    Step Sn Mq g (g.startConnect f) := by
+    Step Sn Mq E g (g.startConnect f) := by
   unfold Gw.startConnect
   refine Step.trans ?_ (Step.startConnectTx S _ _ f hf)
   refine Step.trans ?_ (Step.of_eq (g := (g.newTx _ _ _).2) rfl rfl rfl)
   exact Step.newTx g _ _ _ (fun _ => kindOk_connect (st := .awaitingAuth) hf)
 
 theorem Step.handleConnect (S : Sites Sn Mq) (g : Gw) (will clean : Bool) (dur : UInt16) (cid : Bytes) :
-    Step Sn Mq g (g.handleConnect will clean dur cid) := by
+    Step Sn Mq E g (g.handleConnect will clean dur cid) := by
   unfold Gw.handleConnect
   split
   · refine Step.trans ?_ (Step.flushBuffer _)
@@ -196,7 +196,7 @@ theorem Step.handleConnect (S : Sites Sn Mq) (g : Gw) (will clean : Bool) (dur :
       exact Step.of_eq rfl rfl rfl
 
 theorem Step.connAuth (S : Sites Sn Mq) (g : Gw) (t : Tx) (st : ConnSt) (f : ConnFields) (m d : Bytes)
-    (hf : ConnInv st f) : Step Sn Mq g (g.connAuth t st f m d) := by
+    (hf : ConnInv st f) : Step Sn Mq E g (g.connAuth t st f m d) := by
   unfold Gw.connAuth
   split
   · exact Step.refl g
@@ -212,7 +212,7 @@ theorem Step.connAuth (S : Sites Sn Mq) (g : Gw) (t : Tx) (st : ConnSt) (f : Con
       exact Step.sendConnack S g _
 
 theorem Step.connWillTopic (S : Sites Sn Mq) (g : Gw) (t : Tx) (st : ConnSt) (f : ConnFields) (q : UInt8)
-    (r : Bool) (topic : Bytes) (hf : ConnInv st f) : Step Sn Mq g (g.connWillTopic t st f q r topic) := by
+    (r : Bool) (topic : Bytes) (hf : ConnInv st f) : Step Sn Mq E g (g.connWillTopic t st f q r topic) := by
   unfold Gw.connWillTopic
   split
   · exact Step.refl g
@@ -236,7 +236,7 @@ theorem Step.connWillTopic (S : Sites Sn Mq) (g : Gw) (t : Tx) (st : ConnSt) (f 
         exact UInt8.not_lt.mp hq
 
 theorem Step.connWillMsg (S : Sites Sn Mq) (g : Gw) (t : Tx) (st : ConnSt) (f : ConnFields) (msg : Bytes)
-    (hf : ConnInv st f) : Step Sn Mq g (g.connWillMsg t st f msg) := by
+    (hf : ConnInv st f) : Step Sn Mq E g (g.connWillMsg t st f msg) := by
   unfold Gw.connWillMsg
   split
   · exact Step.refl g
@@ -251,7 +251,7 @@ theorem Step.connWillMsg (S : Sites Sn Mq) (g : Gw) (t : Tx) (st : ConnSt) (f : 
     exact Step.setTx g _ (fun _ => kindOk_connect (st := .awaitingConnack) hok)
 
 theorem Step.connConnack (S : Sites Sn Mq) (g : Gw) (t : Tx) (st : ConnSt) (rc : UInt8) :
-    Step Sn Mq g (g.connConnack t st rc) := by
+    Step Sn Mq E g (g.connConnack t st rc) := by
   unfold Gw.connConnack
   split
   · exact Step.refl g
